@@ -91,7 +91,11 @@ Qed.
 
 (* fuel: one step per operation of each script plus one per switch and one for the end *)
 Definition enough (f : nat) (v0 : ienv) : Prop :=
-  (length (e_script (i_e v0)) + length (i_succ v0) + length (hd [] (e_stack (fst (eval_ref (i_e v0) (e_script (i_e v0)))))) + 6 <= f)%nat.
+  (length (e_script (i_e v0)) +
+   match i_succ v0 with
+   | [] => 0
+   | s => length s + length (hd [] (e_stack (fst (eval_ref (i_e v0) (e_script (i_e v0))))))      (* a P2SH redeem script comes from that stack *)
+   end + 6 <= f)%nat.
 
 Theorem session_is_validation : forall v0 f,
   i_tce v0 = None -> i_p2sh v0 = false -> i_done v0 = false -> i_pc v0 = e_script (i_e v0) -> enough f v0 ->
@@ -199,3 +203,67 @@ Proof.
   specialize (H Hd eq_refl Hf). unfold verify_ref in H. cbn [i_succ setup_env] in H. exact H.
 Qed.
 End WitnessSessions.
+
+(* ------------------------------------------------------------------ tapscript: commitment phase, then the script *)
+From BV Require Import TceProofs.
+Section TapSessions.
+Variable low_s : bytes -> bool.
+Variable tap_tweak_ok : bytes -> bytes -> bytes -> bool -> bool.
+Variable sha256 : bytes -> bytes.
+Variable c : cfg.
+Notation dbg_continue := (Session.dbg_continue low_s tap_tweak_ok sha256).
+Notation tce_run := (TceProofs.tce_run tap_tweak_ok sha256).
+
+(* the commitment phase of the session performs exactly the iteration [tce_run]: a failed commitment ends the session with an error and an
+   untouched environment; a successful one hands the script the leaf hash (execdata.m_tapleaf_hash) and nothing else *)
+Lemma tce_phase : forall g t v f, i_tce v = Some t -> i_done v = false -> (g <= f)%nat ->
+  match tce_run g t with
+  | (t', TceDone) => exists v1 f1, dbg_continue f c v = dbg_continue f1 c v1 /\ (f <= f1 + g)%nat /\ i_tce v1 = None /\
+                                   i_e v1 = set_ed (i_e v) (ed_set_tapleaf (e_ed (i_e v)) (t_leaf t')) /\ i_pc v1 = i_pc v /\
+                                   i_done v1 = false /\ i_p2sh v1 = i_p2sh v /\ i_succ v1 = i_succ v
+  | (t', TceFailed) => exists v1, dbg_continue f c v = (v1, SErr) /\ i_e v1 = i_e v
+  | (t', TceProcessing) => True
+  end.
+Proof.
+  induction g as [|g IH]; intros t v f Ht Hd Hf; cbn [TceProofs.tce_run]; [exact I|].
+  destruct f as [|f]; [lia|]. cbn [Session.dbg_continue]. rewrite Hd. unfold Session.dbg_step. rewrite Ht.
+  destruct (tce_iterate tap_tweak_ok sha256 t) as [t1 st] eqn:Ei. destruct st.
+  - (* processing *)
+    set (v' := set_seq (set_tce v (Some t1)) (i_seq v + 1)).
+    specialize (IH t1 v' f eq_refl Hd ltac:(lia)).
+    destruct (tce_run g t1) as [t' st']. destruct st'; [exact I| |].
+    + destruct IH as (v1 & Hc & He). exists v1. split; [exact Hc|exact He].
+    + destruct IH as (v1 & f1 & Hc & Hfu & Ht1 & He & Hp & Hd1 & Hp2 & Hs). exists v1, f1.
+      split; [exact Hc|]. split; [lia|]. split; [exact Ht1|]. split; [exact He|]. split; [exact Hp|]. split; [exact Hd1|]. split; assumption.
+  - eexists. split; [reflexivity|]. reflexivity.
+  - eexists. exists f. split; [reflexivity|]. split; [lia|]. cbn. repeat split; try reflexivity. exact Hd.
+Qed.
+
+(* the whole tapscript session: the BIP341 commitment rule decides whether the script runs at all (C05), and if it does the session is one
+   evaluation of the committed script with the leaf hash installed *)
+Theorem tapscript_session : forall control program script m stack ed f,
+  (forall x, length (sha256 x) = 32%nat) -> length control = (33 + 32 * m)%nat -> (c_sigver c =? SV_BASE) = false -> script <> [] ->
+  let t0 := tce_new sha256 control program script in
+  let v0 := setup_env c script stack [] ed (Some t0) in
+  let e_run := set_ed (i_e v0) (ed_set_tapleaf (e_ed (i_e v0)) (spec_leaf sha256 control script)) in
+  (S m + (length script + 6) <= f)%nat ->
+  if spec_commit_ok tap_tweak_ok sha256 control program script
+  then ended (dbg_continue f c v0) (match eval_ref low_s c e_run script with (e1, SOk) => finish e1 | (e1, st) => failed_verdict e1 st end)
+  else exists v1, dbg_continue f c v0 = (v1, SErr) /\ i_e v1 = i_e v0.
+Proof.
+  intros control program script m stack ed f Hlen Hctl Hsv Hne t0 v0 e_run Hf.
+  destruct (commitment_done_iff tap_tweak_ok sha256 Hlen control program script m Hctl) as (t' & Hrun & _ & Hleaf).
+  assert (Hd0: i_done v0 = false) by (cbn; destruct script; [contradiction|reflexivity]).
+  pose proof (tce_phase (S m) t0 v0 f eq_refl Hd0 ltac:(lia)) as P. fold t0 in Hrun. rewrite Hrun in P.
+  destruct (spec_commit_ok tap_tweak_ok sha256 control program script).
+  - destruct P as (v1 & f1 & Hc & Hfu & Ht1 & He & Hp & Hd1 & Hp2 & Hs).
+    rewrite Hc. rewrite Hleaf in He. fold e_run in He.
+    assert (Hp2sh: i_p2sh v1 = false) by (rewrite Hp2; apply witness_session_not_p2sh; exact Hsv).
+    assert (Hpc: i_pc v1 = e_script (i_e v1)) by (rewrite Hp, He; reflexivity).
+    assert (Hen: enough low_s c f1 v1).
+    { unfold enough. rewrite Hs. cbn [i_succ v0 setup_env]. rewrite He. cbn [set_ed e_script e_run i_e v0 setup_env]. lia. }
+    pose proof (session_is_validation low_s tap_tweak_ok sha256 c v1 f1 Ht1 Hp2sh Hd1 Hpc Hen) as H.
+    unfold verify_ref in H. rewrite Hs in H. cbn [i_succ v0 setup_env] in H. rewrite He in H. cbn [set_ed e_script e_run i_e v0 setup_env] in H. exact H.
+  - exact P.
+Qed.
+End TapSessions.
